@@ -23,6 +23,8 @@ CLAIMS["C03"] = ("pairing/ordering facts on Writer and Block: rollback of the pe
                  "static analysis: dominance / post-dominance / edge-region pairing rules over MIR")
 CLAIMS["C18"] = ("header constants and fingerprint byte order in the header builder, reader header gate (read_exact of expected length, whole-vector compare, mismatch edge is Err, decode dominated by the Ok edge), writer buffer save/truncate pairing by post-dominance, validate-before-first-sink-write in the typed writers",
                  "static analysis: aggregate/constant inspection + dominance / post-dominance rules over MIR")
+CLAIMS["C04"] = ("magic bytes (writer constant = reader constant = 4F 62 6A 01), header order magic/metadata map<bytes>/marker on both sides, agreement of the reserved metadata key sets between writer, reader and add_user_metadata's guard, absent avro.codec = Null, block order count/size/payload/marker on both sides with both numbers encoded as long, codec-name tables as inverse bijections over the specification's names",
+                 "static analysis: constant evaluation + dominance ordering over MIR, writer/reader/spec-table cross-check")
 NA_DEFAULT = "check under construction in this round (see DESIGN.md); not yet claimed"
 
 
